@@ -77,7 +77,7 @@ void FAST(zzAddWMod)(word b[], const word a[], register word w,
 	ASSERT(wwIsDisjoint(b, mod, n));
 	ASSERT(wwCmp(a, mod, n) < 0 && wwCmpW(mod, n, w) > 0);
 	// a + w >= mod => a + w - mod < mod
-	if (zzAddW(b, a, n, w) || wwCmp(b, mod, n) > 0)
+	if (zzAddW(b, a, n, w) || wwCmp(b, mod, n) >= 0)
 		zzSub2(b, mod, n);
 	w = 0;
 }
